@@ -58,7 +58,7 @@ func c19Setup(rc *RunCtx) simrt.Config {
 	cfg.TraceLimit = 2000
 	c := &c19cfg{}
 	c.n = []int{0, 1, 2, 5, 20, 127, 128, 129, 300}[r.Weighted(1, 2, 3, 4, 4, 1, 1, 1, 1)]
-	c.lazy = []int{0, 0, 86400}[r.Choose(3)]
+	c.lazy = []int{0, 0, 86400, 86400, 2, 30}[r.Choose(6)] // incl. lazy lifetimes below the answers' TTLs: the entry leaves the cache before its message expires
 	c.whole = c.lazy > 0 || r.Choose(3) != 0
 	c.via = r.Choose(2)
 	c.enospc = c.via == 0 && r.Choose(4) == 0
